@@ -556,12 +556,16 @@ impl Message {
                                                 target: Id::from_bytes(arguments.target)?,
                                                 v: arguments.v,
                                                 k,
-                                                seq: arguments.seq.expect(
-                                                    "Put mutable message to have sequence number",
-                                                ),
-                                                sig: arguments.sig.expect(
-                                                    "Put mutable message to have a signature",
-                                                ),
+                                                seq: arguments.seq.ok_or_else(|| {
+                                                    serde_bencode::Error::MissingField(
+                                                        "seq".to_string(),
+                                                    )
+                                                })?,
+                                                sig: arguments.sig.ok_or_else(|| {
+                                                    serde_bencode::Error::MissingField(
+                                                        "sig".to_string(),
+                                                    )
+                                                })?,
                                                 salt: arguments.salt,
                                                 cas: arguments.cas,
                                             },
@@ -859,7 +863,7 @@ fn bytes_to_signed_peer<T: AsRef<[u8]>>(
 ) -> Result<([u8; 32], u64, [u8; 64]), DecodeMessageError> {
     let bytes = bytes.as_ref();
 
-    if !bytes.len().is_multiple_of(104) {
+    if bytes.len() != 104 {
         return Err(DecodeMessageError::InvalidSignedPeersEncodingLength);
     }
 
